@@ -78,3 +78,30 @@ pub fn pick_chunking(rng: &mut Rng) -> Chunking {
         _ => Chunking::Whole,
     }
 }
+
+/// A sink that takes at most `chunk` bytes per write() and answers Interrupted on every third call; it never fails
+/// for good, so a correct streaming encoder delivers exactly the bytes of the buffered encoding.
+pub struct ShortWriter {
+    pub out: Vec<u8>,
+    pub chunk: usize,
+    pub calls: u64,
+}
+impl ShortWriter {
+    pub fn new(chunk: usize) -> Self {
+        ShortWriter { out: Vec::new(), chunk: chunk.max(1), calls: 0 }
+    }
+}
+impl std::io::Write for ShortWriter {
+    fn write(&mut self, buf: &[u8]) -> std::io::Result<usize> {
+        self.calls += 1;
+        if self.calls % 3 == 2 {
+            return Err(std::io::Error::from(std::io::ErrorKind::Interrupted));
+        }
+        let n = buf.len().min(self.chunk);
+        self.out.extend_from_slice(&buf[..n]);
+        Ok(n)
+    }
+    fn flush(&mut self) -> std::io::Result<()> {
+        Ok(())
+    }
+}
